@@ -509,4 +509,23 @@ def c19_d(ctx: Ctx):
     return res
 
 
-RULES = [c19_a, c19_b, c19_c, c19_d]
+@rule("C19-e")
+def c19_e(ctx: Ctx):
+    """Only `signac init` plants a project marker: no other sub-command creates the `.signac` directory / a config file in the current directory (a stray marker in a
+    job or run directory makes discovery stop there instead of at the enclosing project)."""
+    R = "C19-e"
+    out = []
+    for f in ctx.prog.functions_of_module("signac.__main__"):
+        if not f.name.startswith("main_") or f.name in ("main_init", "main_migrate"):
+            continue
+        mk = [e for e in ctx.effects.direct(f) if e.kind in ("mkdir",) or e.prim in ("os.mkdir", "os.makedirs")]
+        mk += [c for c in body_nodes(f) if isinstance(c, ast.Call) and (dotted(c.func) or "").split(".")[-1] == "_mkdir_p"]
+        if mk:
+            node = getattr(mk[0], "node", mk[0])
+            out.append(ctx.viol(R, f, node, f"{f.name} creates a directory: run from a job or data directory it plants a project marker there, and get_project from that directory and "
+                                "below no longer resolves to the enclosing project", construct=f"{f.qual}|no-marker"))
+    if not out:
+        out.append(ctx.ok(R, None, None, "no sub-command other than init / migrate creates directories", construct="signac.__main__|no-marker"))
+    return out
+
+RULES = [c19_a, c19_b, c19_c, c19_d, c19_e]
